@@ -27,7 +27,8 @@ TECHNIQUE = ("runtime monitoring: value comparison of get_branches/get_paths/get
 LEVEL_TEXT = ("Exploration: every generated tree (all shape classes with emphasis on roots with one, "
               "two and many children, single nodes, unbranched chains, stems of 1..50 nodes; sorted "
               "and permuted numberings) is decomposed by the real functions and compared with the "
-              "reference; every node's predicates and Node.branch are checked on small trees.")
+              "reference; every node's predicates and Node.branch are checked on small trees."
+              "A third of the trees are derived from an already queried tree (re-rooted, sorted, copied and edited, or edited in place through a node handle); node predicates are also read through negative-position handles.")
 LEVEL_NOTE = ("Branch / path order is free (sets of id tuples); ToLongestPath ties within 1e-6 "
               "relative are inconclusive; Node.branch is decided for pass-through nodes, tips and a "
               "root with one child (for a furcation the statement says nothing).")
